@@ -89,9 +89,26 @@ let handle = function
     let symi = int_of_string sym in
     (match s2k_key typ (nn h) (bytes_of_hex salt) (nn coded) (bytes_of_hex pw) (key_len symi) with
      | Res.Ok ikm ->
-       let info = [byte_of_int 0xC3; byte_of_int 6; byte_of_int symi; byte_of_int (int_of_string aead)] in
+       let info = Kdf.skesk6_info (nn sym) (nn aead) in
        let kek = hkdf256 [] ikm info (n_of_int (key_len symi)) in
        hex_of_bytes (Prims.seal (nn aead) (nn sym) kek (bytes_of_hex iv) info (bytes_of_hex sk))
+     | _ -> "ERR")
+  | ["lockaead"; tag; ver; sym; mode; spec; pw; nonce; pub; raw] ->
+    (* AEAD-locked secret key: Lock.lock_aead with KEK = HKDF-SHA256(S2K key, Kdf.keylock_info) *)
+    let symi = int_of_string sym in
+    let pwb = bytes_of_hex pw in
+    let derived = (match Stdlib.String.split_on_char ':' spec with
+      | ["argon"; t; p; m; salt] ->
+        (try Res.Ok (Prims.argon2 (nn t) (nn p) (n_of_int (1 lsl (int_of_string m))) (bytes_of_hex salt) pwb (n_of_int (key_len symi))) with Prims.Unsupported _ -> Res.Err)
+      | [typ; h; salt; coded] -> s2k_key typ (nn h) (bytes_of_hex salt) (nn coded) pwb (key_len symi)
+      | _ -> Res.Err) in
+    (match derived with
+     | Res.Ok d ->
+       if Lock.aead_info (nn tag) (nn ver) (nn sym) (nn mode) <> Kdf.keylock_info (nn tag) (nn ver) (nn sym) (nn mode) then "MODEL-SPLIT info" else
+       (try hex_of_bytes (Lock.lock_aead (fun k n ad m -> Prims.seal (nn mode) (nn sym) (take (key_len symi) k) n ad m)
+                            (fun ikm info -> hkdf256 [] ikm info (n_of_int 32))
+                            (nn tag) (nn ver) (nn sym) (nn mode) d (bytes_of_hex nonce) (bytes_of_hex pub) (bytes_of_hex raw))
+        with Prims.Unsupported _ -> "ERR")
      | _ -> "ERR")
   | ["v1enc"; sym; key; prefix; data] ->
     let symi = int_of_string sym in
